@@ -39,6 +39,7 @@ def decision_table(prog, fn, classify, domains, outcome=None):
     for bb, i, s in fn.all_stmts():
         if s["k"] == "assign" and s["place"] == {"l": 0} and s["rv"]["k"] == "agg" and s["rv"].get("variant") == "Err":
             err_blocks.add(bb)
+    calls_by_bb = {c.bb: c for c in fn.calls()}
     for combo in itertools.product(*[domains[k] for k in keys]):
         assign = {k: v for k, v in zip(keys, combo)}
         outs = set()
@@ -62,7 +63,9 @@ def decision_table(prog, fn, classify, domains, outcome=None):
                     continue
                 rv_ = s_["rv"]
                 val_ = None
-                if rv_["k"] == "use":
+                if rv_["k"] == "agg" and rv_.get("adt") == "core::result::Result" and rv_.get("variant") in ("Ok", "Err"):
+                    val_ = rv_["variant"]
+                elif rv_["k"] == "use":
                     c_ = rv_["op"].get("c")
                     if c_ is not None and "int" in c_:
                         val_ = str(c_["int"])
@@ -77,9 +80,25 @@ def decision_table(prog, fn, classify, domains, outcome=None):
             t = fn.term(bb)
             if t["k"] == "call" and t.get("dest") is not None:
                 env.pop(t["dest"]["l"], None)
+                # `mode == Enum::Variant` on a designated input: its verdict under this assignment
+                c_ = calls_by_bb.get(bb)
+                if c_ is not None and (c_.name.endswith("PartialEq>::eq") or c_.name.endswith("PartialEq>::ne")) and "p" not in t["dest"]:
+                    ee_ = flow.enum_eq(fn, flow.Cond("call", bb, call=c_))
+                    if ee_ is not None:
+                        adt_ = (c_.self_ty or {}).get("adt")
+                        for o_ in ee_[1]:
+                            k_ = classify(o_, adt_)
+                            if k_ is not None and k_ in assign:
+                                same = (assign[k_][0] == ee_[0])
+                                env[t["dest"]["l"]] = "1" if (same != c_.name.endswith("::ne")) else "0"
             envt = tuple(sorted(env.items()))
             if t["k"] == "return":
-                outs.add("err" if erred else "ok")
+                # the variant of the returned Result when the path tells (a verdict built in a helper read in place and
+                # handed back through copies), else whether an `Err(..)` was assigned to the return place on the way
+                if env.get(0) in ("Ok", "Err"):
+                    outs.add("err" if env[0] == "Err" else "ok")
+                else:
+                    outs.add("err" if erred else "ok")
                 continue
             if t["k"] == "switch":
                 dp_ = op_place(t["discr"])
